@@ -12,6 +12,8 @@ pub enum Ty {
     U256,
     U512,
     Bool,
+    /// BoundedInt<lo, hi> (one felt)
+    B(BigInt, BigInt),
     NonZero(Box<Ty>),
 }
 
@@ -25,6 +27,13 @@ impl Ty {
         let s = s.trim();
         if let Some(inner) = s.strip_prefix("NonZero<").and_then(|r| r.strip_suffix('>')) {
             return Ty::parse(inner).map(|t| Ty::NonZero(Box::new(t)));
+        }
+        if let Some(inner) = s.strip_prefix("BoundedInt<").and_then(|r| r.strip_suffix('>')) {
+            let mut it = inner.split(',').map(|x| x.trim().parse::<BigInt>().ok());
+            return match (it.next(), it.next(), it.next()) {
+                (Some(Some(lo)), Some(Some(hi)), None) => Some(Ty::B(lo, hi)),
+                _ => None,
+            };
         }
         match s {
             "u8" => Some(Ty::U(8)),
@@ -47,6 +56,7 @@ impl Ty {
     pub fn min(&self) -> BigInt {
         match self {
             Ty::I(w) => -pow2(w - 1),
+            Ty::B(lo, _) => lo.clone(),
             Ty::NonZero(t) => t.min(),
             _ => BigInt::zero(),
         }
@@ -59,6 +69,7 @@ impl Ty {
             Ty::U256 => pow2(256) - 1,
             Ty::U512 => pow2(512) - 1,
             Ty::Bool => BigInt::one(),
+            Ty::B(_, hi) => hi.clone(),
             Ty::NonZero(t) => t.max(),
         }
     }
@@ -69,6 +80,7 @@ impl Ty {
             Ty::U256 => 256,
             Ty::U512 => 512,
             Ty::Bool => 1,
+            Ty::B(lo, hi) => ((hi - lo).bits() as u32).max(lo.bits() as u32).max(hi.bits() as u32).max(2),
             Ty::NonZero(t) => t.bits(),
         }
     }
@@ -144,17 +156,79 @@ impl Ty {
             v.push(&p - 256);
         }
         if matches!(self, Ty::U256 | Ty::U512) {
-            // limb boundaries
-            for hi in [0u32, 1] {
-                v.push((pow2(128) - 1) + (BigInt::from(hi) << 128));
-                v.push((pow2(128) - 1) << 128);
-                v.push(pow2(128) * (pow2(64) + hi));
+            // multi-limb types: the full cross product of per-limb boundary values across the
+            // 128-bit limbs (carries between limbs live there), plus square-root edge values
+            let limbs = limb_values(full);
+            let n = self.size();
+            let mut acc: Vec<BigInt> = vec![BigInt::zero()];
+            for i in 0..n {
+                // u512: only the short limb list, else 9^4 values
+                let ls = if n > 2 { limb_values(false) } else { limbs.clone() };
+                let mut next = vec![];
+                for a in &acc {
+                    for l in &ls {
+                        next.push(a + (l << (128 * i)));
+                    }
+                }
+                acc = next;
+            }
+            v.extend(acc);
+            // perfect squares +- small, and the values with 2*isqrt(v) - (v - isqrt(v)^2) == 2^128
+            let mut roots: Vec<BigInt> = vec![pow2(64) - 1, pow2(64), pow2(127) - 1, pow2(127), pow2(128) - 1];
+            if full {
+                roots.extend([pow2(32), pow2(96) + 1, pow2(126) + 3, pow2(127) + pow2(64)]);
+            }
+            for r in &roots {
+                let sq = r * r;
+                for d in [-2i32, -1, 0, 1, 2] {
+                    v.push(&sq + d);
+                }
+                v.push(&sq + 2 * r);
+                v.push(&sq + 2 * r + 1);
+            }
+            for k in 0..(if full { 6 } else { 3 }) {
+                let r = pow2(127) + k;
+                v.push(&r * &r + 2 * k);
+                v.push(&r * &r + 2 * k + 1);
+                v.push(&r * &r + 2 * k - 1);
             }
         }
         v.retain(|x| self.contains(x));
         v.sort();
         v.dedup();
         v
+    }
+
+    /// For multi-limb types: the cross product of the per-limb boundary values (always used in
+    /// full for pairs of operands, never sampled).
+    pub fn limb_cross(&self, full: bool) -> Option<Vec<BigInt>> {
+        let inner = match self {
+            Ty::NonZero(t) => t.as_ref(),
+            t => t,
+        };
+        let n = match inner {
+            Ty::U256 => 2,
+            Ty::U512 => 4,
+            _ => return None,
+        };
+        // four limbs: {0, 1, 2^128-1} per limb in quick (81 values), the short list in thorough (625)
+        let ls = if n > 2 {
+            if full { limb_values(false) } else { vec![BigInt::zero(), BigInt::one(), pow2(128) - 1] }
+        } else {
+            limb_values(full)
+        };
+        let mut acc: Vec<BigInt> = vec![BigInt::zero()];
+        for i in 0..n {
+            let mut next = vec![];
+            for a in &acc {
+                for l in &ls {
+                    next.push(a + (l << (128 * i)));
+                }
+            }
+            acc = next;
+        }
+        acc.retain(|x| self.contains(x));
+        Some(acc)
     }
 
     pub fn random(&self, rng: &mut Rng) -> BigInt {
@@ -169,7 +243,7 @@ impl Ty {
                 2 => {
                     let k = rng.below(self.bits() as u64) as u32 + 1;
                     let x = rng.bits(k);
-                    if matches!(self, Ty::I(_)) && rng.bool() { -x } else { x }
+                    if self.min() < BigInt::zero() && rng.bool() { -x } else { x }
                 }
                 // near the top
                 _ => {
@@ -184,10 +258,45 @@ impl Ty {
     }
 }
 
+/// Boundary values of one 128-bit limb.
+pub fn limb_values(full: bool) -> Vec<BigInt> {
+    let mut v = vec![BigInt::zero(), BigInt::one(), pow2(64), pow2(128) - 2, pow2(128) - 1];
+    if full {
+        v.extend([BigInt::from(2), pow2(63), pow2(64) - 1, pow2(127)]);
+    }
+    v.sort();
+    v
+}
+
 /// Operand tuples for a parameter list: cross product of boundary sets (capped by sampling when it
 /// exceeds `cap`) plus `n_random` seeded random tuples.
 pub fn tuples(tys: &[Ty], full: bool, cap: usize, n_random: usize, rng: &mut Rng) -> Vec<Vec<BigInt>> {
-    let sets: Vec<Vec<BigInt>> = tys.iter().map(|t| t.boundary(full)).collect();
+    tuples_with(tys, &[], full, cap, n_random, rng)
+}
+
+/// As [tuples]; `extra[i]` are additional values of special interest for parameter i (thresholds
+/// of the instantiation, taken from the wrapper's header).
+pub fn tuples_with(
+    tys: &[Ty],
+    extra: &[Vec<BigInt>],
+    full: bool,
+    cap: usize,
+    n_random: usize,
+    rng: &mut Rng,
+) -> Vec<Vec<BigInt>> {
+    let sets: Vec<Vec<BigInt>> = tys
+        .iter()
+        .enumerate()
+        .map(|(i, t)| {
+            let mut s = t.boundary(full);
+            if let Some(e) = extra.get(i) {
+                s.extend(e.iter().filter(|x| t.contains(x)).cloned());
+                s.sort();
+                s.dedup();
+            }
+            s
+        })
+        .collect();
     let total: usize = sets.iter().map(|s| s.len().max(1)).product();
     let mut out: Vec<Vec<BigInt>> = vec![];
     if tys.is_empty() {
@@ -224,6 +333,29 @@ pub fn tuples(tys: &[Ty], full: bool, cap: usize, n_random: usize, rng: &mut Rng
         }
         while out.len() < cap {
             out.push(sets.iter().map(|s| rng.pick(s).clone()).collect());
+        }
+    }
+    // multi-limb operands: full cross product of the per-limb boundary values of the first two
+    // multi-limb parameters (carry chains); further parameters take a few of their boundary values
+    let ml: Vec<usize> = (0..tys.len()).filter(|i| tys[*i].limb_cross(full).is_some()).collect();
+    if !ml.is_empty() {
+        let a_set = tys[ml[0]].limb_cross(full).unwrap();
+        let b_set = if ml.len() > 1 { tys[ml[1]].limb_cross(full).unwrap() } else { vec![] };
+        let mut push = |a: &BigInt, b: Option<&BigInt>, rng: &mut Rng| {
+            let mut t: Vec<BigInt> = sets.iter().map(|s| rng.pick(s).clone()).collect();
+            t[ml[0]] = a.clone();
+            if let Some(b) = b {
+                t[ml[1]] = b.clone();
+            }
+            out.push(t);
+        };
+        for a in &a_set {
+            if b_set.is_empty() {
+                push(a, None, rng);
+            }
+            for b in &b_set {
+                push(a, Some(b), rng);
+            }
         }
     }
     for _ in 0..n_random {
